@@ -139,6 +139,17 @@ def rule_a(ctx, R, tb):
     tcd = cfg.transitive_control_deps(tb, acyclic=True)
     deps = set(e for e in tcd[ebi] if e[0] in body_blocks)
     loopvar = v.root_place({"l": nt["dest"]["l"], "p": []}).with_path(("as:Some", "0"))
+
+    def is_loop_subset(r):
+        """the loop element itself (mapped iterator of ids) or the id built from the loop index by the from_id role"""
+        if r == loopvar:
+            return True
+        t_ = v.call_term(r)
+        if t_ is None and r.kind == "local" and not r.path:
+            dd_ = v.single_def(r.base[1])
+            if dd_ and dd_[0] == "call":
+                t_ = dd_[2]
+        return t_ is not None and idroles.is_role(ctx, t_, "from_id") and bool(t_["args"]) and v.root(t_["args"][0]) == loopvar
     kinds = {}
     unknown = []
     test = None
@@ -169,10 +180,10 @@ def rule_a(ctx, R, tb):
             test = (sb, x, op, good)
         elif c and c[0] == "call" and idroles.is_role(ctx, c[1], "is_empty"):
             r = v.root(c[1]["args"][0])
-            kinds["empty"] = (sb, r == loopvar and tgt == fe)
+            kinds["empty"] = (sb, is_loop_subset(r) and tgt == fe)
         elif c and c[0] == "call" and callee_is(c[1], trait="PartialEq", name=("ne", "eq")):
             r0, r1 = v.root(c[1]["args"][0]), v.root(c[1]["args"][1])
-            other = r1 if r0 == loopvar else (r0 if r1 == loopvar else None)
+            other = r1 if is_loop_subset(r0) else (r0 if is_loop_subset(r1) else None)
             full_ok = False
             if other is not None:
                 ot = v.call_term(other)
@@ -282,10 +293,23 @@ def rule_e(ctx, R, bs, tb):
     order, _ext = reachable_bodies(ctx, R, [bs])
     n_tb = 0
     for b in order:
+        vb = Vals(b)
         for bi, si, st in pat.result_ctor_sites(b, "Err"):
             if b is tb:
                 n_tb += 1
                 continue
+            # propagation by re-construction: `Err(e) => return Err(e)` / Err(From::from(e)) of the builder's own Err payload
+            pr = vb.root(st["rv"]["ops"][0]) if st["rv"].get("ops") else None
+            for _ in range(3):
+                ct = vb.call_term(pr) if pr is not None else None
+                if ct is not None and callee_is(ct, trait=("From", "Into"), name=("from", "into")):
+                    pr = vb.root(ct["args"][0])
+                else:
+                    break
+            if pr is not None and pr.kind == "call" and pr.path[:1] == ("as:Err",):
+                src = R.body_of_callee(b.blocks[pr.base[1]]["term"].get("callee"))
+                if src is tb:
+                    continue
             ctx.ob("C05-e", "no Err besides the divergence test", False, b.path, "extra-err-site", where=pat.where(st),
                    detail="an Err is constructed in %s: build_sampler can now fail for a graph whose proper subsets are all convergent "
                           "(the statement allows an error only for a divergent subset)" % norm_path(b.path))
